@@ -115,6 +115,13 @@ var corpus = []string{
 	`select ?s, ?r from ?a where {?s "p"@[] ?o . optional {?o "q"@[] ?r}} order by ?r, ?s;`,
 	`select ?s, ?r, ?w from ?a where {?s "p"@[] ?o . optional {?o "q"@[] ?r} . optional {?x "zz"@[] ?w}} order by ?w, ?r;`,
 	`select ?n, ?s, ?q, ?o from ?a where {?n "_subject"@[] ?s . ?n "_predicate"@[] ?q . ?n "_object"@[] ?o};`,
+	// the same output name twice (refused when the table is built), with and without rows in the result
+	`select ?s, ?s from ?a where {?s "p"@[] ?o};`,
+	`select ?s, ?s from ?a where {?s "zz"@[] ?o};`,
+	`select ?s as ?x, ?o as ?x from ?a where {?s "p"@[] ?o};`,
+	`select ?s as ?x, ?o as ?x from ?a where {?s "p"@[] ?o} limit "0"^^type:int64;`,
+	`select ?s as ?x, ?o as ?x from ?a where {?s "p"@[] ?o} having ?o = /u<nobody>;`,
+	`select ?s, count(?o) as ?s from ?a where {?s "zz"@[] ?o} group by ?s;`,
 	// HAVING forms the grammar derives and only the expression builder can refuse (bare bindings, empty operands)
 	`select ?s from ?a where {?s ?p ?o} having (?s);`,
 	`select ?s from ?a where {?s ?p ?o} having (not ?s);`,
